@@ -243,8 +243,8 @@ impl Prop for P {
             },
             Tier::Thorough => Plan {
                 workers: 16,
-                cases_per_worker: 4000,
-                timeout_s: 7200,
+                cases_per_worker: 1500,
+                timeout_s: 14400,
                 max_shrink_iters: 300,
             },
         }
